@@ -57,6 +57,17 @@ def case_list(seed, n_canon, n_hostile):
             cases.append((f"{lang}:canon:{i}", lang, canon.generate(lang, f"{seed}:c06:{i}").text))
         for name, text in hostile.corpus(lang):
             cases.append((f"{lang}:corpus:{name}", lang, text))
+        # near-twins: same length, same number of tokens, same first token, same everything a coarse memo key could look at, but a
+        # different result (one function renamed / one line moved from one function to the next)
+        trng = rng_for(seed, "c06twins", lang)
+        for i in range(max(4, n_canon // 2)):
+            lens = [trng.randint(3, 9) for _ in range(3)]
+            a = canon.file_with_functions(lang, [max(2, x) for x in lens], prefix="tw")
+            b = a.replace("tw1(", "wt1(", 1)
+            lens2 = [lens[0] + 1, max(2, lens[1] - 1), lens[2]]
+            c = canon.file_with_functions(lang, [max(2, x) for x in lens2], prefix="tw")
+            for tag, text in (("a", a), ("b", b), ("c", c)):
+                cases.append((f"{lang}:twin:{i}:{tag}", lang, text))
         rng = rng_for(seed, "c06h", lang)
         for i in range(n_hostile):
             k = i % 4
